@@ -36,6 +36,32 @@ type NoiseGrpcConn struct {
 	maxHandshakeVersion byte
 }
 
+// noiseGrpcSessionConn is the net.Conn that a completed handshake hands out.
+// The NoiseGrpcConn itself is shared by all consecutive connections of a
+// session (gRPC holds it as its transport credentials and runs every handshake
+// on it), so closing a connection must not go through the shared ProxyConn
+// field: by the time the owner of an old connection closes it (again), that
+// field may already hold the transport of the connection that replaced it.
+type noiseGrpcSessionConn struct {
+	*NoiseGrpcConn
+
+	transport ProxyConn
+
+	closeOnce sync.Once
+	closeErr  error
+}
+
+// Close closes the transport that this connection was established over.
+//
+// NOTE: This is part of the net.Conn interface.
+func (s *noiseGrpcSessionConn) Close() error {
+	s.closeOnce.Do(func() {
+		s.closeErr = s.transport.Close()
+	})
+
+	return s.closeErr
+}
+
 // NewNoiseGrpcConn creates a new noise connection using given local ECDH key.
 // The auth data can be set for server connections and is sent as the payload
 // to the client during the handshake.
@@ -228,7 +254,10 @@ func (c *NoiseGrpcConn) ClientHandshake(_ context.Context, _ string,
 
 	log.Tracef("Client handshake completed")
 
-	return c, NewAuthInfo(), nil
+	return &noiseGrpcSessionConn{
+		NoiseGrpcConn: c,
+		transport:     transportConn,
+	}, NewAuthInfo(), nil
 }
 
 // ServerHandshake implements the server part of the noise connection handshake.
@@ -290,7 +319,10 @@ func (c *NoiseGrpcConn) ServerHandshake(conn net.Conn) (net.Conn,
 	log.Debugf("Finished server handshake, client_key=%x",
 		c.noise.remoteStatic.SerializeCompressed())
 
-	return c, NewAuthInfo(), nil
+	return &noiseGrpcSessionConn{
+		NoiseGrpcConn: c,
+		transport:     transportConn,
+	}, NewAuthInfo(), nil
 }
 
 // Info returns general information about the protocol that's being used for
